@@ -648,11 +648,13 @@ MOTIFS_EXT = [
      ["new_cells", "C.X", "g", F(2, 1, "g", "s")], ["new_cells", "C", "f", F(4, 1, "g", "r", "X")],
      ["new_space", "-", "B", []], ["set_ref", "B", "t", ["obj", "C.X.g"], "absolute"],
      ["new_cells", "B", "h", F(9, 1, "h", "t")]],
-    # the same shape with the middle cells uncached from the start, and a chain below it
+    # the same shape with the middle cells uncached from the start (no other cells of its space is a
+    # precedent of the callers), and a chain above the caller
     [["new_space", "-", "C", []], ["new_space", "C", "X", []], ["set_ref", "C.X", "s", 2],
-     ["new_cells", "C.X", "k", F(2, 1, "k", "s")], ["new_cells", "C.X", "g", F(1, 1, "k")],
-     ["set_cached", "C.X", "g", 0], ["set_cached", "C.X", "k", 0],
-     ["new_cells", "C", "f", F(4, 1, "g", "r", "X")], ["new_cells", "C", "h", F(1, 2, "f")]],
+     ["new_cells", "C.X", "g", F(2, 1, "g", "s")], ["set_cached", "C.X", "g", 0],
+     ["new_cells", "C", "f", F(4, 1, "g", "r", "X")], ["new_cells", "C", "h", F(1, 2, "f")],
+     ["new_space", "-", "B", []], ["set_ref", "B", "t", ["obj", "C.X.g"], "absolute"],
+     ["new_cells", "B", "k", F(9, 1, "k", "t")]],
 ]
 
 
